@@ -262,6 +262,10 @@ type c15Case struct {
 	// files too large to be kept in a replay artefact are described by how they are generated
 	// the sandbox command is nested Nest times with the same policy (each level installs its filter and starts the next):
 	// with a near-maximum policy the kernel's budget of 32768 instructions per thread is exceeded at some level (ENOMEM)
+	// the command runs under a tracer that answers every seccomp(2) call itself (strace -e inject=seccomp:<this>): the call
+	// never reaches the kernel, so no filter is installed whatever the answer looks like - an errno, or a positive
+	// result, which is how the kernel reports the thread that refused a thread-sync load
+	Inject   string `json:"seccomp_answer_injected,omitempty"`
 	Nest     int    `json:"nest,omitempty"`
 	GenKind  string `json:"generated_kind,omitempty"` // large-file | long-group | oversize | near-max
 	GenParam int    `json:"generated_param,omitempty"`
@@ -342,6 +346,11 @@ func checkC15(tier, replay string) int {
 			cases = append(cases, c15Case{Label: name + "/whole/bad-target", File: text, FileKind: "content", BadTarget: true})
 			cases = append(cases, c15Case{Label: name + "/whole/seccomp-denied-by-outer-sandbox", File: text, FileKind: "content", OuterDeniesSeccomp: true})
 			cases = append(cases, c15Case{Label: name + "/whole/seccomp-denied-by-outer-sandbox/no-nnp", File: text, FileKind: "content", OuterDeniesSeccomp: true, ExtraArgs: []string{"-no-new-privs=false"}})
+			if straceWorks() {
+				for _, spec := range []string{"retval=4242", "retval=1", "error=ESRCH", "error=ENOMEM", "error=EINVAL", "error=EACCES", "error=EFAULT"} {
+					cases = append(cases, c15Case{Label: name + "/whole/seccomp-answered-by-tracer/" + spec, File: text, FileKind: "content", Inject: spec})
+				}
+			}
 			// every line prefix; every byte prefix (thorough) or every byte prefix inside the first and last rule (quick)
 			lines := strings.SplitAfter(text, "\n")
 			off := 0
@@ -483,6 +492,8 @@ func checkC15(tier, replay string) int {
 				mustRefuse = "kernel refuses (the filters of the nested commands exceed 32768 instructions)"
 			} else if c.OuterDeniesSeccomp {
 				mustRefuse = "kernel refuses (seccomp(2) answers EPERM under the outer sandbox)"
+			} else if c.Inject != "" {
+				mustRefuse = "no filter is installed (every seccomp(2) call is answered with " + c.Inject + " without reaching the kernel)"
 			} else if d := refsem.Decide(a, p, cbpf.Event{Nr: mustNum(a, "execve"), Arch: a.ID}); d != refsem.RetAllow && d != refsem.RetLog {
 				// the sandbox starts the target with execve after the filter is in force: a policy that does not allow
 				// execve cannot start anything, and the command must not work around its own policy
@@ -547,6 +558,9 @@ func checkC15(tier, replay string) int {
 			outer := filepath.Join(dir, "outer.yml")
 			os.WriteFile(outer, []byte("seccomp:\n  default_action: allow\n  syscalls:\n  - action: errno\n    names:\n    - seccomp\n"), 0o644)
 			argv = append([]string{sandbox, "-policy", outer}, argv...)
+		}
+		if c.Inject != "" {
+			argv = append([]string{"strace", "-f", "-o", "/dev/null", "-e", "trace=seccomp", "-e", "inject=seccomp:" + c.Inject}, argv...)
 		}
 		if c.Unpriv {
 			argv = append([]string{"setpriv", "--reuid", "65534", "--regid", "65534", "--clear-groups"}, argv...)
@@ -637,7 +651,7 @@ func checkC15(tier, replay string) int {
 	ctx.Cov["runs_in_which_the_target_started"] = ranTarget
 	ctx.Cov["runs_that_must_be_refused"] = refused
 	ctx.Cov["probe_events_observed_by_the_target"] = probes
-	ctx.Cov["rule"] = "the built cmd/sandbox binary is run with a probe target (a separate program that first appends a marker line, then issues probe syscalls for every partition cell of the policy) on: 11 base policy files (one listing a syscall twice with entries for other syscalls in between and a three-condition list, one spelling all eight operations and the actions in non-canonical letter case, one whose first group ends with a conditional entry for a syscall the second group names unconditionally) (incl. two under which execve is not allowed: no target can be started) whole (root / uid 65534 / with -no-new-privs=false / non-existent target / nested inside an outer sandbox whose policy answers errno to seccomp(2), so that the kernel refuses the filter), every line prefix and every byte prefix inside the first and last rule (thorough: every byte prefix), 13 defect kinds per base plus an unknown name, and two names that only other architectures' tables have, at every position where a syscall name stands, JSON renderings with operands that need all 64 bits (unknown action/default/syscall/operation, wrong key, no syscalls, non-YAML, tab indentation, empty, argument 6 / -1, non-numeric value, duplicate name), a policy compiling to > 4096 instructions, ten nested sandbox commands with a 4.0k-instruction policy (the kernel refuses one of them with ENOMEM), a policy whose first group needs long jumps (70 conditional entries) followed by a second group, files of 4 KiB to 1 MiB in which a comment block pushes the last group to byte offset L-1, L, L+1 for L in {4096, ..., 65536, 131072, 1 MiB}, a missing file (also a relative and the default name that exist next to the command's executable and in HOME, but not in the working directory) and a directory; the same bytes are loaded by the harness through ucfg: if that fails, the policy is invalid or the kernel must refuse, the run must exit non-zero with no marker; otherwise the marker exists and the target's observations equal the reference decisions of the policy the file denotes"
+	ctx.Cov["rule"] = "the built cmd/sandbox binary is run with a probe target (a separate program that first appends a marker line, then issues probe syscalls for every partition cell of the policy) on: 11 base policy files (one listing a syscall twice with entries for other syscalls in between and a three-condition list, one spelling all eight operations and the actions in non-canonical letter case, one whose first group ends with a conditional entry for a syscall the second group names unconditionally) (incl. two under which execve is not allowed: no target can be started) whole (root / uid 65534 / with -no-new-privs=false / non-existent target / nested inside an outer sandbox whose policy answers errno to seccomp(2), so that the kernel refuses the filter; under a tracer that answers every seccomp(2) call itself - with a positive result, which is how a refused thread-sync is reported, or with ESRCH / ENOMEM / EINVAL / EACCES / EFAULT - so that nothing is installed), every line prefix and every byte prefix inside the first and last rule (thorough: every byte prefix), 13 defect kinds per base plus an unknown name, and two names that only other architectures' tables have, at every position where a syscall name stands, JSON renderings with operands that need all 64 bits (unknown action/default/syscall/operation, wrong key, no syscalls, non-YAML, tab indentation, empty, argument 6 / -1, non-numeric value, duplicate name), a policy compiling to > 4096 instructions, ten nested sandbox commands with a 4.0k-instruction policy (the kernel refuses one of them with ENOMEM), a policy whose first group needs long jumps (70 conditional entries) followed by a second group, files of 4 KiB to 1 MiB in which a comment block pushes the last group to byte offset L-1, L, L+1 for L in {4096, ..., 65536, 131072, 1 MiB}, a missing file (also a relative and the default name that exist next to the command's executable and in HOME, but not in the working directory) and a directory; the same bytes are loaded by the harness through ucfg: if that fails, the policy is invalid or the kernel must refuse, the run must exit non-zero with no marker; otherwise the marker exists and the target's observations equal the reference decisions of the policy the file denotes"
 	ctx.Assumptions = []string{"a truncated file that still parses is a different valid policy and is judged as such", "probe syscalls ignore arguments", "fault points before exec are realised through inputs (file defects, kernel refusals), not by interrupting the sandbox process"}
 	if replay != "" {
 		return finishReplay(ctx)
